@@ -9,6 +9,12 @@ tables are mutual inverses; JPEG_NBITS = floor(log2)+1.
 4. property-level oracle on the implementation's own output (validity of the
    generated table, decode(encode)=id, nbits = bit_length) -- this is the search
    for a concrete failing input when 2 or 3 break, and it runs on every case.
+5. symbol statistics (model/HuffSym.v): harness/c19sym*.c runs the REAL
+   htest_one_block (jchuff.c), the progressive gather pass (jcphuff.c) and
+   encode_mcus_gather (jclhuff.c) of the working tree; same lines through the
+   extracted model; oracle: every counted symbol is in the class set proved in
+   HuffSymProofs.v; the counts are then fed to the real jpeg_gen_optimal_table
+   (family gen-e2e) and judged by the table oracle.
 """
 import os
 from vlib import core
@@ -92,6 +98,337 @@ def gen_hist(rng, kind):
     return f
 
 
+
+# ------------------------------------------------------------------ symbol statistics (HuffSym)
+RUNS = [15, 16, 31, 32, 47, 48, 0, 1, 14, 17, 30, 33]
+
+
+def clampc(v):
+    return max(-32768, min(32767, v))
+
+
+def zz_block(rng, kind, prec, shift=0):
+    """64 coefficients in zig-zag order (JCOEF range) aimed at one case split; shift = Al"""
+    mcb = prec + 2
+
+    def sgn(v):
+        return clampc(-v if rng.chance(1, 2) else v)
+
+    def small():
+        return sgn(rng.range(1, (1 << rng.range(1, mcb)) - 1) << shift)
+
+    ac = [0] * 63
+    if kind == "zero":
+        pass
+    elif kind == "dense":
+        ac = [small() for _ in range(63)]
+    elif kind in ("sparse", "guard", "lastnz", "lastz"):
+        for _ in range(rng.range(1, 8)):
+            ac[rng.below(63)] = small()
+        if kind == "guard":      # magnitude 2^k - 1 / 2^k for k around max_coef_bits
+            k = mcb + shift + rng.choice([-1, 0, 0, 1])
+            ac[rng.below(63)] = sgn(rng.choice([(1 << k) - 1, 1 << k]))
+        elif kind == "lastnz":
+            ac[62] = small()
+        elif kind == "lastz":
+            ac[62] = 0
+            ac[61] = small()
+    elif kind == "runs":         # zero runs of exactly 15/16/31/32/47/48 before a non-zero coefficient
+        pos = 0
+        while True:
+            pos += rng.choice(RUNS)
+            if pos > 62:
+                break
+            ac[pos] = small()
+            pos += 1
+    dc = sgn(rng.range(0, 1 << rng.range(1, 11)))
+    return [dc] + ac
+
+
+def dc_pair(rng, prec, boundary):
+    """(last_dc, block[0]) ; boundary: |diff| = 2^k - 1 / 2^k around max_coef_bits + 1"""
+    mcb = prec + 2
+    if boundary:
+        k = mcb + 1 + rng.choice([-1, 0, 0, 1])
+        d = rng.choice([(1 << k) - 1, 1 << k])
+        if rng.chance(1, 2):
+            d = -d
+        c0 = clampc(d // 2)
+        return c0 - d, c0
+    c0 = rng.range(-1000, 1000)
+    return c0 - rng.range(-500, 500), c0
+
+
+def fmt(vals):
+    return " ".join(map(str, vals))
+
+
+def gen_sym_cases(ctx, rng):
+    """[(line, kind, meta)]; meta = dict(cls=..., prec=..., blocks=..., e2e=bool)"""
+    out = []
+    n = ctx.n(260, 5000)
+    hs_kinds = ["zero", "dense", "sparse", "runs", "lastnz", "lastz", "guard", "dcguard", "mixed", "big"]
+    for i in range(n):
+        prec = rng.choice([8, 12])
+        k = hs_kinds[i % len(hs_kinds)] if i < 3 * len(hs_kinds) else rng.choice(hs_kinds)
+        groups, nblocks = [], 0
+        if k in ("guard", "dcguard"):
+            nb = rng.range(1, 3)
+            for j in range(nb):
+                last = j == nb - 1
+                blk = zz_block(rng, "guard" if (k == "guard" and last) else "sparse", prec)
+                ld, c0 = dc_pair(rng, prec, k == "dcguard" and last)
+                blk[0] = c0
+                groups.append("%d %s" % (ld, fmt(blk)))
+                nblocks += 1
+        else:
+            nb = rng.range(60, 300) if k == "big" else rng.range(1, 12)
+            for j in range(nb):
+                bk = rng.choice(["zero", "dense", "sparse", "runs", "lastnz", "lastz"]) if k in ("mixed", "big") else k
+                blk = zz_block(rng, bk, prec)
+                ld, c0 = dc_pair(rng, prec, False)
+                blk[0] = c0
+                rep = rng.range(2, 40) if rng.chance(1, 6) else 1
+                groups.append(("*%d " % rep if rep > 1 else "") + "%d %s" % (ld, fmt(blk)))
+                nblocks += rep
+        out.append(("hs %d ; %s" % (prec, " ; ".join(groups)), "hs-" + k, {"cmd": "hs", "prec": prec, "blocks": nblocks}))
+    # progressive
+    hp_kinds = ["dcfirst", "dcrefine", "acfirst", "acfirst-guard", "eobrun", "refine", "refine-zrl", "corrbits", "restart"]
+    zero64 = fmt([0] * 64)
+    for i in range(ctx.n(220, 4000)):
+        prec = rng.choice([8, 12])
+        k = hp_kinds[i % len(hp_kinds)] if i < 3 * len(hp_kinds) else rng.choice(hp_kinds)
+        al = rng.range(0, 3)
+        ri = 0
+        groups = []
+        if k in ("dcfirst", "dcrefine"):
+            ss = se = 0
+            ah = 0 if k == "dcfirst" else al + 1
+            for _ in range(rng.range(1, 30)):
+                blk = zz_block(rng, "sparse", prec)
+                blk[0] = clampc(rng.choice([rng.range(-2000, 2000), rng.range(-32768, 32767),
+                                            (1 << (prec + 2 + al)) - 1, -(1 << (prec + 2 + al))]))
+                groups.append(fmt(blk))
+            ri = rng.choice([0, 0, 3])
+        elif k in ("acfirst", "acfirst-guard", "restart"):
+            ah = 0
+            ss = rng.choice([1, 1, 1, 6, rng.range(1, 63)])
+            se = rng.choice([63, 63, 5 if ss <= 5 else 63, rng.range(ss, 63)])
+            ri = rng.range(1, 5) if k == "restart" else 0
+            for _ in range(rng.range(1, 40)):
+                bk = rng.choice(["zero", "zero", "dense", "sparse", "runs", "lastnz", "lastz"])
+                blk = zz_block(rng, bk, prec, al)
+                rep = rng.range(2, 300) if (bk == "zero" and rng.chance(1, 2)) else 1
+                groups.append(("*%d " % rep if rep > 1 else "") + fmt(blk))
+            if k == "acfirst-guard":
+                groups.append(fmt(zz_block(rng, "guard", prec, al)))
+        elif k == "eobrun":      # EOBRUN 0x7FFE / 0x7FFF boundary
+            refine = rng.chance(1, 3)
+            ah = al + 1 if refine else 0
+            ss, se = 1, 63
+            nrep = rng.choice([32765, 32766, 32767, 32768, 65533, 65534, 65535])
+            pre = rng.range(0, 2)
+            for _ in range(pre):
+                groups.append(zero64)
+            groups.append("*%d %s" % (nrep - pre, zero64))
+            if rng.chance(2, 3):
+                groups.append(fmt(zz_block(rng, "sparse", prec, al)))
+                if rng.chance(1, 2):
+                    groups.append(zero64)
+        else:                    # refinement scans
+            ah = al + 1
+            ss = rng.choice([1, 1, rng.range(1, 40)])
+            se = 63
+            if k == "corrbits":  # BE at the MAX_CORR_BITS - DCTSIZE2 + 1 = 937 boundary
+                ss = 1
+                full = [0] + [(rng.range(2, 7) << al) * rng.choice([1, -1]) for _ in range(63)]
+                groups.append("*14 " + fmt(full))          # BE = 14 * 63 = 882
+                nb = rng.choice([54, 55, 56, 57])           # 936 / 937 / 938 (flush) / 939 (flush)
+                part = [0] + [(rng.range(2, 7) << al) for _ in range(nb)] + [0] * (63 - nb)
+                groups.append(fmt(part))
+                for _ in range(rng.range(0, 3)):
+                    groups.append(fmt(full if rng.chance(1, 2) else part))
+            else:
+                for _ in range(rng.range(1, 25)):
+                    blk = [0] * 64
+                    if k == "refine-zrl":
+                        # long zero runs before newly-nonzero coefficients (ZRL path, k <= EOB), previously
+                        # non-zero coefficients in between, and runs > 15 AFTER the last newly-nonzero one
+                        pos = ss
+                        last_one = -1
+                        while pos <= 63:
+                            pos += rng.choice([16, 17, 20, 31, 32, 33, 5, 0])
+                            if pos > 63:
+                                break
+                            t = rng.choice([1, 1, 2, 3])
+                            blk[pos] = ((t << al) | (rng.below(1 << al) if al else 0)) * rng.choice([1, -1])
+                            pos += 1
+                    else:
+                        for _ in range(rng.range(0, 12)):
+                            t = rng.choice([1, 1, 2, 3, 5])
+                            blk[rng.range(ss, 63)] = ((t << al) | (rng.below(1 << al) if al else 0)) * rng.choice([1, -1])
+                    rep = rng.range(2, 20) if rng.chance(1, 8) else 1
+                    groups.append(("*%d " % rep if rep > 1 else "") + fmt(blk))
+        out.append(("hp %d %d %d %d %d %d ; %s" % (prec, ss, se, ah, al, ri, " ; ".join(groups)), "hp-" + k,
+                    {"cmd": "hp", "prec": prec, "dc": ss == 0}))
+    # lossless
+    edge = [0, 1, -1, 2, -2, 255, -255, 256, 32767, -32767, 32768, -32768, 32769, -32769, 65535, -65535, 65536, -65536,
+            16383, 16384, -16384, 49152, -49152, 70000, -70000]
+    for i in range(ctx.n(80, 1500)):
+        nd = rng.range(1, 200)
+        ds = [rng.choice(edge) if rng.chance(1, 3) else
+              (rng.range(-32768, 32767) if rng.chance(1, 2) else rng.choice([1, -1]) * ((1 << rng.range(0, 16)) - rng.below(2)))
+              for _ in range(nd)]
+        out.append(("hl " + fmt(ds), "hl", {"cmd": "hl", "n": nd}))
+    return out
+
+
+def class_set(cmd, prec, dc):
+    """independent statement of the proved symbol classes (HuffSymProofs.class_set)"""
+    mcb = prec + 2
+    if cmd == "hl":
+        return set(range(17))
+    if dc:
+        return set(range(mcb + 2))
+    s = {0, 0xF0} | {(r << 4) + z for r in range(16) for z in range(1, mcb + 1)}
+    if cmd == "hp":
+        s |= {n << 4 for n in range(15)}
+    return s
+
+
+def parse_pairs(txt):
+    return {int(a): int(b) for a, b in (w.split(":") for w in txt.split())}
+
+
+def run_sym_cases(ctx, cases, exes, drv, flavours):
+    """returns the derived end-to-end 'gen' cases"""
+    e2e = []
+    if not cases:
+        return e2e
+    inp = ("\n".join(c[0] for c in cases) + "\n").encode()
+    outs = {}
+    for fl, exe in exes.items():
+        rc, out, err = sh2([exe], input=inp, timeout=1800)
+        lines = out.decode().split("\n")
+        if rc != 0 or len(lines) < len(cases):
+            idx = max(0, len(lines) - 1)
+            ctx.violation("statistics code crashed/aborted (%s build, rc=%d) on case %d: %s" % (fl, rc, idx, err[-300:]),
+                          {"case": cases[min(idx, len(cases) - 1)][0], "flavour": fl, "stderr": err[-2000:]},
+                          signature="crash:" + cases[min(idx, len(cases) - 1)][1])
+            lines += ["<no output>"] * (len(cases) - len(lines))
+        outs[fl] = lines
+    mlines = None
+    if drv:
+        rc, out, err = sh2([drv], input=inp, timeout=1800)
+        mlines = out.decode().split("\n")
+        if rc != 0 or len(mlines) < len(cases):
+            ctx.broken_tie("model-driver", "extracted model failed on symbol cases: rc=%d %s" % (rc, err[-200:]))
+            mlines = None
+    ref = outs[flavours[0]]
+    dist = ctx.cov.setdefault("sym_distribution", {})
+
+    def tally(k, n=1):
+        dist[k] = dist.get(k, 0) + n
+
+    disagree = 0
+    for i, (line, kind, meta) in enumerate(cases):
+        impl = ref[i]
+        if impl == "<no output>":
+            continue
+        cmd = meta["cmd"]
+        tally("cases:" + kind)
+        hists = []      # (class set, {sym: count})
+        if " err code=" in impl:
+            # only the JERR_BAD_DCT_COEF guards are live; emit_eobrun's JERR_HUFF_MISSING_CODE and the lossless
+            # MAX_DIFF_BITS guard are proved unreachable (C19_prog_ac_symbols, C19_lossless_symbols)
+            ctx.violation("statistics pass raised an error that is proved unreachable for these inputs: " + impl,
+                          {"case": line[:4000], "impl": impl}, signature="sym-dead-guard:" + kind)
+        elif impl.endswith(" err"):
+            tally("guard_fired:" + cmd + ("-%d" % meta["prec"] if "prec" in meta else ""))
+        elif cmd == "hs":
+            dcs, acs = impl[len("hs dc"):].split("| ac")
+            d, a = parse_pairs(dcs), parse_pairs(acs)
+            hists = [(class_set("hs", meta["prec"], True), d), (class_set("hs", meta["prec"], False), a)]
+            if sum(d.values()) != meta["blocks"]:
+                ctx.violation("htest_one_block counted %d DC symbols for %d blocks" % (sum(d.values()), meta["blocks"]),
+                              {"case": line[:4000], "impl": impl}, signature="sym-dc-count")
+            if sum(a.values()) > 63 * meta["blocks"]:
+                ctx.violation("htest_one_block counted more than 63 AC symbols per block",
+                              {"case": line[:4000], "impl": impl}, signature="sym-ac-count")
+            tally("hs_blocks", meta["blocks"])
+            tally("hs_ac_symbols", sum(a.values()))
+            if a.get(0xF0):
+                tally("hs_cases_with_ZRL")
+            if a.get(0):
+                tally("hs_cases_with_EOB")
+            else:
+                tally("hs_cases_without_EOB")
+            if sum(a.values()) == 63 * meta["blocks"]:
+                tally("hs_cases_63_symbols_per_block")
+        elif cmd == "hp":
+            head, pairs = impl.split("|")
+            eob, be = int(head.split()[2]), int(head.split()[4])
+            c = parse_pairs(pairs)
+            hists = [(class_set("hp", meta["prec"], meta["dc"]), c)]
+            tally("hp_final_eobrun_0" if eob == 0 else "hp_final_eobrun_pos")
+            dist["hp_max_final_eobrun"] = max(dist.get("hp_max_final_eobrun", 0), eob)
+            dist["hp_max_final_be"] = max(dist.get("hp_max_final_be", 0), be)
+            if eob >= 0x7FFF:
+                ctx.violation("EOBRUN reached 0x7FFF without being flushed", {"case": line[:4000], "impl": impl}, signature="sym-eobrun")
+            if be > 937:
+                ctx.violation("BE above MAX_CORR_BITS - DCTSIZE2 + 1 after an MCU", {"case": line[:4000], "impl": impl}, signature="sym-be")
+            if c.get(224):
+                tally("hp_cases_with_eobrun_symbol_14")
+            if c.get(0xF0):
+                tally("hp_cases_with_ZRL")
+            if be in (936, 937):
+                tally("hp_cases_be_at_boundary_unflushed")
+            if kind == "hp-corrbits" and be < 100:
+                tally("hp_cases_be_flushed_at_boundary")
+        else:
+            c = parse_pairs(impl[2:])
+            hists = [(class_set("hl", 0, True), c)]
+            if sum(c.values()) != meta["n"]:
+                ctx.violation("encode_mcus_gather counted %d symbols for %d differences" % (sum(c.values()), meta["n"]),
+                              {"case": line[:4000], "impl": impl}, signature="sym-hl-count")
+            if c.get(16):
+                tally("hl_cases_with_category_16")
+        # ---- property-level oracle: every counted symbol lies in the proved class, then the real generator ----
+        for cls, h in hists:
+            extra = sorted(set(h) - cls)
+            if extra:
+                ctx.violation("statistics pass counted symbols outside the admissible class: %s" % extra[:8],
+                              {"case": line[:4000], "impl": impl[:1000]}, signature="sym-outside-class:" + kind)
+            elif h and sum(h.values()) < 10 ** 9:
+                f = [h.get(s, 0) for s in range(256)]
+                e2e.append(("gen " + fmt(f), "gen-e2e", f))
+        for fl in flavours[1:]:
+            if outs[fl][i] != impl:
+                ctx.violation("builds disagree (%s vs %s)" % (flavours[0], fl),
+                              {"case": line[:4000], flavours[0]: impl[:1000], fl: outs[fl][i][:1000]},
+                              signature="build-disagree:" + kind)
+        if mlines is not None and mlines[i] != impl:
+            disagree += 1
+            if disagree <= 3:
+                ctx.log("model/impl disagree on", kind, "\n  case :", line[:300], "\n  model:", mlines[i][:200], "\n  impl :", impl[:200])
+                ctx.broken_tie("correspondence:" + cmd,
+                               "HuffSym model and statistics code differ on: %s || model=%s || impl=%s" % (line[:600], mlines[i][:200], impl[:200]))
+        ctx.count(kind, 1, (cmd, impl[:300]))
+        if i % 211 == 0:
+            ctx.sample({"case": line[:300], "impl": impl[:200]})
+    ctx.cov["sym_model_impl_disagreements"] = disagree
+    if mlines is not None:
+        ctx.cov["sym_traces_validated_against_impl"] = len(cases)
+    return e2e
+
+
+BOUNDARY_1E9 = [   # outside the property's quantifier (total count below 10^9): informational only
+    ("lossless constant 32768x32768 image: category 0 counted 2^30 times", {0: 32768 * 32768}),
+    ("28571429 blocks with 63 non-zero AC coefficients: symbols 1,2,3 counted 600000009 times each",
+     {1: 600000009, 2: 600000009, 3: 600000009}),
+]
+
+
 def table_valid_for(freq, line):
     """property-level oracle on the implementation's output line"""
     if not line.startswith("ok "):
@@ -152,13 +489,28 @@ def run(ctx):
     drv = ctx.model_driver()
     flavours = ["simd", "plain"] if not ctx.thorough() else ["simd", "plain", "asan"]
     exes = {fl: ctx.cc("c19", ["c19.c"], fl, libs=("jpeg",)) for fl in flavours}
+    symexes = {fl: ctx.cc("c19sym", ["c19sym.c", "c19sym_p.c", "c19sym_l.c"], fl, libs=("jpeg",)) for fl in flavours}
+
+    def sym_meta(l):
+        w = l.split()
+        if w[0] == "hl":
+            return {"cmd": "hl", "n": len(w) - 1}
+        groups = [g.split() for g in l[2:].split(";")]
+        if w[0] == "hp":
+            return {"cmd": "hp", "prec": int(w[1]), "dc": int(w[2]) == 0}
+        nb = sum(int(g[0][1:]) if g[0].startswith("*") else 1 for g in groups[1:] if g)
+        return {"cmd": "hs", "prec": int(w[1]), "blocks": nb}
 
     cases = []   # (line, kind, meta)
+    symcases = []
     if ctx.replay:          # re-execute exactly the recorded case
         import json
         r = json.load(open(ctx.replay))
         l = r.get("case", "")
-        if l:
+        if l and l.split()[0] in ("hs", "hp", "hl"):
+            symcases.append((l, "corpus-" + l.split()[0], sym_meta(l)))
+            cases += run_sym_cases(ctx, symcases, symexes, drv, flavours)
+        elif l:
             kind = "corpus-" + l.split()[0]
             meta = [int(x) for x in l.split()[1:257]] if l.startswith("gen ") else None
             if l.startswith("nbits "):
@@ -171,10 +523,20 @@ def run(ctx):
         for fn in sorted(os.listdir(cdir)):
             for l in open(os.path.join(cdir, fn)):
                 l = l.strip()
-                if l:
+                if l and l.split()[0] in ("hs", "hp", "hl"):
+                    symcases.append((l, "corpus-" + l.split()[0], sym_meta(l)))
+                elif l and not l.startswith("#"):
                     kind = "corpus-" + l.split()[0]
                     meta = [int(x) for x in l.split()[1:257]] if l.startswith("gen ") else None
                     cases.append((l, kind, meta))
+    # symbol statistics: real htest_one_block / progressive gather / lossless gather vs the HuffSym model;
+    # their counts then go through the real generator (gen-e2e)
+    symcases += gen_sym_cases(ctx, rng.fork())
+    cases += run_sym_cases(ctx, symcases, symexes, drv, flavours)
+    # counts >= 10^9: outside the property (informational, see design/C19.md O-C19-1)
+    for what, h in BOUNDARY_1E9:
+        f = [h.get(i, 0) for i in range(256)]
+        cases.append(("gen " + " ".join(map(str, f)), "gen-boundary1e9", f))
     nh = ctx.n(3000, 60000)
     kinds = ["sparse", "dense", "equal", "single", "fib", "fibmix", "near1e9", "ties", "image", "full", "deep"]
     for i in range(nh):
@@ -276,6 +638,12 @@ def run_cases(ctx, cases, exes, drv, flavours):
                 if bad:
                     ctx.violation("generated table invalid: " + bad, {"case": line, "impl": impl}, signature="gen-invalid:" + kind)
             nontriv = ("gen", impl)
+            if kind == "gen-boundary1e9":
+                what = [w for w, h in BOUNDARY_1E9 if [h.get(j, 0) for j in range(256)] == meta][0]
+                ctx.cov.setdefault("boundary_counts_ge_1e9", []).append(
+                    {"histogram": what, "real_generator_returned": impl,
+                     "table_oracle": table_valid_for(meta, impl) or "valid",
+                     "model_agrees": (mlines[i].rstrip() == impl.rstrip()) if mlines is not None else None})
         elif kind.startswith("rt-") or kind == "corpus-rt":
             if " ; dec " in impl:
                 dec = [int(x) for x in impl.split(" ; dec ")[1].split()]
@@ -305,7 +673,7 @@ def run_cases(ctx, cases, exes, drv, flavours):
                 ctx.violation("builds disagree (%s vs %s)" % (flavours[0], fl), {"case": line, flavours[0]: impl, fl: outs[fl][i]},
                               signature="build-disagree:" + kind)
         # ---- model correspondence ----
-        if mlines is not None and kind != "ms" and mlines[i] != impl:
+        if mlines is not None and kind != "ms" and mlines[i].rstrip() != impl.rstrip():
             disagree += 1
             if disagree <= 3:
                 ctx.log("model/impl disagree on", kind, "\n  case :", line[:160], "\n  model:", mlines[i][:160], "\n  impl :", impl[:160])
@@ -317,9 +685,13 @@ def run_cases(ctx, cases, exes, drv, flavours):
     if mlines is not None:
         ctx.cov["traces_validated_against_impl"] = len(cases)
     ctx.cov["model_impl_disagreements"] = disagree
-    ctx.cov["rule"] = ("histograms (11 families incl. Fibonacci-like, ties, near 10^9, 255/256-symbol and depth>32 boundary families), "
+    ctx.cov["rule"] = ("symbol statistics: real htest_one_block / jcphuff.c gather pass / jclhuff.c encode_mcus_gather on blocks aimed at the "
+                       "proof case splits (guard boundary 2^k-1/2^k for both precisions, zero runs 15/16/31/32/47/48, all-zero, EOB/no EOB, "
+                       "EOBRUN 0x7FFE/0x7FFF, refinement ZRL before/after EOB, BE at 937/938), their counts fed to the real generator (gen-e2e); "
+                       "histograms (11 families incl. Fibonacci-like, ties, near 10^9, 255/256-symbol and depth>32 boundary families), "
                        "valid and malformed (bits,huffval) tables, encode/decode round trips through the real HUFF_DECODE, exhaustive nbits 0..65535; "
                        "a case is distinct/non-trivial when its implementation output line is distinct")
-    ctx.assume += ["correspondence is differential testing of the hand model against the real functions; it supports the tie, not the theorem",
+    ctx.assume += ["counts >= 10^9 (family gen-boundary1e9) are outside the property's quantifier and only recorded (O-C19-1)",
+                   "correspondence is differential testing of the hand model against the real functions; it supports the tie, not the theorem",
                    "property-level oracle for generated tables applied to histograms with <= 254 non-zero symbols and untruncated depth <= 32 "
                    "(255/256 symbols: UINT8 bits[] boundary; depth>32: JERR_HUFF_CLEN_OVERFLOW boundary -- model-vs-code only)"]
